@@ -1,20 +1,82 @@
-import Autog.Lemmas.ComponentsDfs
+import Autog.Model.Pipeline
 import Autog.Lemmas.DfsHasCycles
 import Autog.Lemmas.GreedyAssignedOnce
 import Autog.Lemmas.NsInitLayersKahn
-/-! # C01
-    Layout always returns. First pass: the algorithmic cores of the totality chain, proved on small-step machines
-    (explicit stack = Go call stack, fuel = budget): the cycle test is complete, the greedy breaker ranks every node
-    exactly once for every pick oracle, Kahn initialisation processes every node of a DAG. -/
+import Autog.Lemmas.ComponentsDfs
+/-! # C01 — Layout always returns
+
+    PARTIAL. In the composed model `layoutModel` (Autog/Model/Pipeline.lean) every explicit `panic` of the modelled code, every
+    unguarded slice index and every loop or recursion without a syntactic bound is an `Except.error` ("panic:…", "fuel:…"); the
+    correspondence keys fail as soon as the model errs where the code does not (or the other way round), on every traced run, and the
+    `Totality` fact lists pin the panic sites, unbounded loops and recursive functions of /repo that the model's error sites stand for.
+    Proved for all inputs:
+    * phases with no error site at all: `C01_valign_packright_total`, `C01_collect_total` (pure functions), `C01_assignY_total`;
+    * `C01_longestpath_layers_nonneg` + `C01_layers_total`: after LongestPath every layer index is ≥ 0, so the layer-list construction
+      cannot index out of range (the D5 failure mode) — for every graph state;
+    * on the machines the models run: the cycle test is complete (`C01_hasCycles_complete`), the greedy breaker ranks every node
+      exactly once for every pick oracle (`C01_greedy_assigns_every_node_once`), Kahn initialisation processes every node of a DAG
+      (`C01_ns_init_processes_every_node`), the component DFS closes (`C01_components_closed_connected`).
+    NOT proved (observed under watchdogs on the whole option grid): fuel sufficiency of the machines, termination of WMedian's
+    transposes, Brandes–Köpf, SinkColoring's fixpoint, the simplex pivots; Splines routing is a known finding. -/
 
 namespace Autog
 
+/-- the full claim, kept visible: for every well-formed input and every configuration with exact models the composed model returns -/
+def C01_full : Prop := ∀ (ord : G → M G) (cfg : Cfg) (es : InEdges), es ≠ [] → cfg.p4 ≤ 3 → cfg.p5 ≠ 3 →
+  (∀ g, ∃ g', ord g = .ok g') → ∃ out, layoutModel ord cfg es = .ok out
+
+theorem C01_valign_packright_total (alg : Nat) (ha : alg = 1 ∨ alg = 2) (ns ls : Rat) (g : G) :
+    ∃ g', phase4Simple alg ns ls g = .ok g' := by
+  unfold phase4Simple
+  by_cases h1 : (g.nodes.size == 1) = true
+  · simp [h1, pure, Except.pure]
+  · rcases ha with rfl | rfl <;> simp [h1, bind, Except.bind, pure, Except.pure]
+
+/-- result collection and Y assignment are total functions (no error type at all) -/
+theorem C01_collect_total (cfg : Cfg) (gs : List G) : ∃ o, collect cfg 0 0 gs = o := ⟨_, rfl⟩
+theorem C01_assignY_total (ls : Rat) (g : G) : ∃ g', assignYCoords ls g = g' := ⟨_, rfl⟩
+
+theorem foldl_max_ge (f : Nat → Nat) : ∀ (l : List Nat) (m : Nat), m ≤ l.foldl (fun m n => max m (f n)) m
+  | [], m => Nat.le_refl _
+  | x :: l, m => Nat.le_trans (Nat.le_max_left _ _) (foldl_max_ge f l _)
+
+theorem le_foldl_max' (f : Nat → Nat) : ∀ (l : List Nat) (m x : Nat), x ∈ l → f x ≤ l.foldl (fun m n => max m (f n)) m
+  | y :: l, m, x, h => by
+    rcases List.mem_cons.1 h with rfl | h
+    · exact Nat.le_trans (Nat.le_max_right _ _) (foldl_max_ge f l _)
+    · exact le_foldl_max' f l _ x h
+
+/-- after LongestPath no node has a negative layer -/
+theorem C01_longestpath_layers_nonneg (g g' : G) (h : execLongestPath g = .ok g') :
+    ∀ n ∈ g'.nodeIds, 0 ≤ g'.layerOf n := by
+  unfold execLongestPath at h
+  simp only [bind, Except.bind] at h
+  cases hm : heights g with
+  | error e => rw [hm] at h; cases h
+  | ok memo =>
+    rw [hm] at h
+    simp only [pure, Except.pure, Except.ok.injEq] at h
+    subst h
+    intro n hn
+    have hn' : n < g.nodes.size := by simpa [G.nodeIds] using hn
+    simp only [G.layerOf, G.node, Array.getD_eq_getD_getElem?, Array.getElem?_mapIdx, hn', Array.getElem?_eq_getElem]
+    simp only [Option.map_some, Option.getD_some]
+    have := le_foldl_max' (fun n => (LongestPath.look memo n).getD 0) g.nodeIds 0 n (by simpa [G.nodeIds] using hn')
+    omega
+
+/-- with non-negative layers the layer-list construction never fails -/
+theorem C01_layers_total (g : G) (h : ∀ n ∈ g.nodeIds, 0 ≤ g.layerOf n) : ∃ g', buildLayers g = .ok g' := by
+  unfold buildLayers
+  have : (g.nodeIds.any fun n => decide (g.layerOf n < 0)) = false := by
+    rw [List.any_eq_false]
+    intro n hn
+    have := h n hn
+    simp; omega
+  simp [this, bind, Except.bind, pure, Except.pure]
+
 theorem C01_hasCycles_complete : type_of% @DfsHasCycles.run_done := @DfsHasCycles.run_done
-
 theorem C01_greedy_assigns_every_node_once : type_of% @GreedyAssignedOnce.all_assigned_once := @GreedyAssignedOnce.all_assigned_once
-
 theorem C01_ns_init_processes_every_node : type_of% @NsInitLayersKahn.all_processed := @NsInitLayersKahn.all_processed
-
 theorem C01_components_closed_connected : type_of% @ComponentsDfs.closed_connected := @ComponentsDfs.closed_connected
 
 end Autog
